@@ -244,4 +244,29 @@ theorem ShapeS_source_err_iff_apS_err (ap : AP) (size : Int) (sls : List (Option
 example : Gen.clsE (Gen.Shape_S [2, 3, 4] [some ⟨0, 1, 1⟩, none, some ⟨1, 4, 2⟩]) = .val [3] := by decide
 example : Gen.clsE (Gen.Shape_S [2, 3, 4] [some ⟨0, 1, 1⟩, none, some ⟨0, 4, 2⟩]) = .val [3, 2] := by decide
 
+/-- **The metadata invariants are what the operation theorems ask for.** A tensor whose access pattern covers its storage
+    window (`Covers`, preserved by slicing and transposing: `slice_covers`, `T_covers`) and addresses distinct cells
+    (`InjectivePat`: `default_distinct`, `T_distinct`) satisfies the two hypotheses the iterator-path theorems of
+    C06 / C07 / C11 / C12 make about an operand: its iterator stays inside its window and never yields a cell twice. -/
+theorem wf_offsets (t : Dense) (n : Nat) (hcov : Covers t.ap (n : Int)) (hinj : InjectivePat t.ap.shape t.ap.strides) :
+    (∀ i ∈ t.offsets, 0 ≤ i ∧ i < (n : Int)) ∧ t.offsets.Nodup := by
+  obtain ⟨hl, hs, hp, hlt⟩ := hcov
+  have ho : t.offsets = (allCoords t.ap.shape).map (fun c => dot c t.ap.strides) := by
+    unfold Dense.offsets
+    exact offsets_rowmajor t.ap hl hp
+  rw [ho]
+  constructor
+  · intro i hi
+    obtain ⟨c, hc, rfl⟩ := List.mem_map.mp hi
+    exact covers_inbox t.ap n ⟨hl, hs, hp, hlt⟩ c (C17compat.allCoords_inBox _ _ hc)
+  · refine List.pairwise_map.mpr ((allCoords_nodup t.ap.shape hp).imp_of_mem ?_)
+    intro x y hx hy hne hxy
+    exact hne (hinj x y (C17compat.allCoords_inBox _ _ hx) (C17compat.allCoords_inBox _ _ hy) hxy)
+
+/-- non-vacuity: the lazily transposed (2,3) matrix over six cells -/
+example : Covers { shape := [3, 2], strides := [1, 3] } 6 ∧ InjectivePat [3, 2] [1, 3] := by
+  refine ⟨⟨rfl, by decide, by decide, by decide⟩, ?_⟩
+  have := T_distinct [1, 0] [2, 3] [3, 1] (by decide) rfl (default_distinct [2, 3])
+  simpa [gatherI] using this
+
 end TM.C13
